@@ -206,7 +206,11 @@ scriptLoop:
 			go func() { results <- gateRes{id, g.Acquire(ctx)} }()
 			if want == "queued" {
 				if !settle(func() bool { return int64(g.Queued()) == queued || len(results) > 0 }) || len(results) > 0 {
-					fail("Acquire should block in the queue", fmt.Sprintf("queued, Queued=%d", queued))
+					if len(results) > 0 {
+						take(want) // it returned instead of queueing: let the capacity oracle look at what it returned
+					} else {
+						fail("Acquire should block in the queue", fmt.Sprintf("queued, Queued=%d", queued))
+					}
 					break scriptLoop
 				}
 				waiters = append(waiters, id)
@@ -411,6 +415,14 @@ func (rn *runner) gateHTTP(c uint, q uint64) {
 	for i := uint(0); i < c; i++ {
 		select {
 		case <-w.entered:
+		case a := <-heldAns:
+			// nobody is being served yet and fewer than c requests have arrived: this one must be admitted
+			res.Violate(lib.Violation{Sig: "http-gate-refuses-request-on-idle-server",
+				What: fmt.Sprintf("jsonrpc.HTTP with Gate(%d,%d): request %d of the first %d (as many as there are slots) is not admitted: status=%d body=%q err=%v",
+					c, q, i+1, c, a.status, a.body, a.err),
+				Replay: replay("first-requests")})
+			close(w.holdCh)
+			return
 		case <-time.After(90 * time.Second):
 			res.Fatalf("%s: a held request never reached its handler", name)
 			close(w.holdCh)
